@@ -263,6 +263,7 @@ func TestC09(t *testing.T) {
 	alt.MinBlocks, alt.MaxBlocks = 10, 28
 	alt.GovFocus = ""
 	alt.HostileDocs, alt.HostileDocsWide = true, true
+	alt.Consensus = 65
 	alt.W["raw"] = 4
 	alt.LiveInject = true
 	p.Alt, p.PAlt = alt, 25
@@ -358,7 +359,11 @@ func TestC09(t *testing.T) {
 			orig := gs.P.W
 			_ = orig
 			gs.hostileHook = func(w *World) ([]byte, string, bool) {
-				if pct(gs.t, 55, "hostileDeliver") {
+				share := 55
+				if gs.P.IsAlt {
+					share = 15 // the governance histories need their proposals to be voted through
+				}
+				if pct(gs.t, share, "hostileDeliver") {
 					raw, note := hostileTx(gs.t, w, gs.all)
 					return raw, note, true
 				}
